@@ -120,6 +120,92 @@ Proof.
   - specialize (Hk eq_refl). discriminate.
 Qed.
 
+(* ------------------------------------------------------------------ multi-part names *)
+
+(* one emitted part in front of any text that starts with a dot: one identifier token, then the rest *)
+Lemma emit_ident_before_dot start rest common d k s suf :
+  classes_ok start rest = true -> (iq d = 34 \/ iq d = 96) ->
+  (k = FoldUpper -> always_quoted d = true) -> is_star s = false ->
+  exists t, sql_lex std_sql (emit_ident start rest common d s ++ 46 :: suf) = t :: TPunct 46 :: sql_lex std_sql suf /\
+            ident_of_tokens k (iq d) [t] = Some s.
+Proof.
+  intros Hc Hq Hk Hs.
+  assert (sql_lex std_sql (46 :: suf) = TPunct 46 :: sql_lex std_sql suf) as Dot by reflexivity.
+  assert (exists t, sql_lex std_sql (emit_ident_quoted (iq d) s ++ 46 :: suf) = t :: TPunct 46 :: sql_lex std_sql suf /\
+                    ident_of_tokens k (iq d) [t] = Some s) as Q.
+  { exists (TQuoted (iq d) s). split.
+    - rewrite emit_ident_quoted_eq. unfold sql_lex.
+      change ((iq d :: dbl (iq d) s ++ [iq d]) ++ 46 :: suf) with (iq d :: (dbl (iq d) s ++ [iq d]) ++ 46 :: suf).
+      rewrite <- app_assoc.
+      rewrite (lex_quoted_ident std_sql (iq d) s (46 :: suf) Hq); [reflexivity|].
+      destruct Hq as [E|E]; rewrite E; reflexivity.
+    - cbn [ident_of_tokens]. rewrite N.eqb_refl. reflexivity. }
+  unfold emit_ident. destruct (always_quoted d) eqn:A; [exact Q|].
+  destruct (valid_ident start rest s && negb (is_keyword common (extra_kw d) s)) eqn:B; [|exact Q].
+  apply andb_true_iff in B as [Hv _].
+  destruct (classes_ok_spec _ _ Hc) as (C1 & C2 & _ & _).
+  destruct (valid_not_star _ _ _ Hv Hs) as (c & r & -> & Hc1 & Hr).
+  exists (TWord (c :: r)). split.
+  - unfold sql_lex. rewrite (lex_word std_sql c r (46 :: suf) (C1 c Hc1) (forallb_impl _ _ _ C2 Hr) eq_refl). reflexivity.
+  - cbn [ident_of_tokens]. f_equal. destruct k; cbn [fold_name].
+    + reflexivity.
+    + apply (bare_casefold_fixpoint start rest (c :: r) Hc Hv).
+    + specialize (Hk eq_refl). discriminate.
+Qed.
+
+Lemma path_of_tokens_cons k q t s r ss :
+  ident_of_tokens k q [t] = Some s -> path_of_tokens k q r = Some ss ->
+  path_of_tokens k q (t :: TPunct 46 :: r) = Some (s :: ss).
+Proof. intros H1 H2. cbn [path_of_tokens]. rewrite H1. change (46 =? 46) with true. cbn iota. rewrite H2. reflexivity. Qed.
+
+(* a non-empty path of parts, none of which is the wildcard, is read back as exactly those parts *)
+Theorem path_roundtrip_ok start rest common d k :
+  classes_ok start rest = true -> (iq d = 34 \/ iq d = 96) ->
+  (k = FoldUpper -> always_quoted d = true) ->
+  forall parts, parts <> [] -> forallb (fun s => negb (is_star s)) parts = true ->
+  path_denotes k (iq d) (emit_path start rest common d parts) = Some parts.
+Proof.
+  intros Hc Hq Hk. induction parts as [|p ps IH]; intros Hne Hst; [contradiction|].
+  cbn [forallb] in Hst. apply andb_true_iff in Hst as [Hp Hps]. apply negb_true_iff in Hp.
+  unfold path_denotes, emit_path in *. destruct ps as [|p2 ps'].
+  - cbn [map join_dots].
+    pose proof (ident_roundtrip_ok start rest common d k p Hc Hq Hk Hp) as R. unfold ident_denotes in R.
+    destruct (sql_lex std_sql (emit_ident start rest common d p)) as [|t [|t2 r]].
+    + discriminate R.
+    + cbn [path_of_tokens]. rewrite R. reflexivity.
+    + exfalso. destruct t; cbn in R; discriminate.
+  - change (join_dots (map (emit_ident start rest common d) (p :: p2 :: ps')))
+      with (emit_ident start rest common d p ++ 46 :: join_dots (map (emit_ident start rest common d) (p2 :: ps'))).
+    destruct (emit_ident_before_dot start rest common d k p (join_dots (map (emit_ident start rest common d) (p2 :: ps'))) Hc Hq Hk Hp)
+      as (t & -> & Ht).
+    apply path_of_tokens_cons; [exact Ht|]. apply IH; [discriminate | exact Hps].
+Qed.
+
+Theorem path_roundtrip_rows start rest common extra rows :
+  classes_ok start rest = true -> quotes_ok rows = true ->
+  forall row k parts, In row rows -> (k = FoldUpper -> snd row = true) ->
+  parts <> [] -> forallb (fun s => negb (is_star s)) parts = true ->
+  path_denotes k (snd (fst row)) (emit_path start rest common (identd_of extra row) parts) = Some parts.
+Proof.
+  intros Hc Q [[name q] a] k parts Hin Hk Hne Hst. cbn [fst snd] in *.
+  unfold quotes_ok in Q. rewrite forallb_forall in Q. specialize (Q _ Hin). cbn [fst snd] in Q.
+  apply (path_roundtrip_ok start rest common (identd_of extra (name, q, a)) k Hc); [|exact Hk|exact Hne|exact Hst].
+  apply orb_true_iff in Q as [Q|Q]; apply N.eqb_eq in Q; [left | right]; exact Q.
+Qed.
+
+(* different paths are never emitted as the same text *)
+Theorem emit_path_injective start rest common extra rows :
+  classes_ok start rest = true -> quotes_ok rows = true ->
+  forall row p1 p2, In row rows -> p1 <> [] -> p2 <> [] ->
+  forallb (fun s => negb (is_star s)) p1 = true -> forallb (fun s => negb (is_star s)) p2 = true ->
+  emit_path start rest common (identd_of extra row) p1 = emit_path start rest common (identd_of extra row) p2 -> p1 = p2.
+Proof.
+  intros Hc Q row p1 p2 Hin N1 N2 S1 S2 E.
+  pose proof (path_roundtrip_rows start rest common extra rows Hc Q row FoldNone p1 Hin ltac:(discriminate) N1 S1) as R1.
+  pose proof (path_roundtrip_rows start rest common extra rows Hc Q row FoldNone p2 Hin ltac:(discriminate) N2 S2) as R2.
+  rewrite E in R1. rewrite R1 in R2. injection R2 as ->. reflexivity.
+Qed.
+
 (* ------------------------------------------------------------------ keywords *)
 
 Lemma keywords_cover_spec engine common x : keywords_cover engine common = true -> In x engine -> mem_str x common = true.
